@@ -1,4 +1,5 @@
 import Bw.Pipeline
+import Bw.Lemmas.Merge
 /-! # C11 — exit status and report follow the diagnostics and their severity -/
 namespace Bw.Props.C11
 open Bw Bw.Pipe Bw.Val
@@ -124,5 +125,52 @@ theorem run_err_iff (re : Regex) (oracle : AsyncOracle) (ctx : List FileCtx) (en
       rw [List.isEmpty_iff] at hemp
       rw [hemp] at hm; cases hm
     · exact ⟨_, rfl⟩
+
+/-! ### the per-file merge of validator results (`run_sync_validators`, `run_async_validators`, `run`) and
+    `process_violations`, as the code computes them (`Bw.Merge`) -/
+open Bw.Merge
+
+/-- **per file, nothing lost, nothing duplicated, nothing displaced**: whatever maps the sync and async validators
+    return (maps: distinct keys), the merged result holds for every file the sync validators' lists followed by the async
+    validators' lists, each intact and in order -/
+theorem merged_per_file_exact (s a : List FileMap) (k : Text)
+    (hs : ∀ m ∈ s, (keys m).Nodup) (ha : ∀ m ∈ a, (keys m).Nodup) :
+    held (runMerge s a) k = (s.map (held · k)).flatten ++ (a.map (held · k)).flatten :=
+  held_runMerge s a k hs ha
+
+/-- each file path is one key of the report -/
+theorem merged_one_entry_per_file (s a : List FileMap) : (keys (runMerge s a)).Nodup := nodup_runMerge s a
+
+/-- a file is a key of the report iff some validator reported on it -/
+theorem merged_file_listed_iff (s a : List FileMap) (k : Text) :
+    k ∈ keys (runMerge s a) ↔ ∃ m ∈ s ++ a, k ∈ keys m := mem_keys_runMerge s a k
+
+/-- as multisets of (file, violation): the merged result is the union of the validators' results -/
+theorem merged_is_union (s a : List FileMap) :
+    (tagged (runMerge s a)).Perm ((s.map tagged).flatten ++ (a.map tagged).flatten) := tagged_runMerge s a
+
+/-- **the merged report of the pipeline is the report of `run`** (every per-block verdict of every detected validator,
+    each once): the theorems about `run` / `runResults` are theorems about what the merge loops produce -/
+theorem merged_report_is_run_report (re : Regex) (oracle : AsyncOracle) (ctx : List FileCtx) (en dis : List String) :
+    (tagged (runMerged re oracle ctx en dis)).Perm (resultDiags (runResults re oracle ctx en dis)) :=
+  tagged_runMerged re oracle ctx en dis
+
+/-- the exit flag `process_violations` computes over the merged map is the exit status of `run`'s report -/
+theorem merged_exit (re : Regex) (oracle : AsyncOracle) (ctx : List FileCtx) (en dis : List String)
+    (ds : List (Text × Diag)) (h : run re oracle ctx en dis = .ok ds) :
+    exitMerged (runMerged re oracle ctx en dis) = exitCode (.ok ds) := exitMerged_eq re oracle ctx en dis ds h
+
+/-- `main` prints a report iff there is at least one diagnostic ("with no diagnostics nothing is printed"), and no file is
+    listed with an empty list -/
+theorem printed_iff_diagnostics (re : Regex) (oracle : AsyncOracle) (ctx : List FileCtx) (en dis : List String) :
+    printsReport (runMerged re oracle ctx en dis) = true ↔ resultDiags (runResults re oracle ctx en dis) ≠ [] :=
+  printsReport_iff re oracle ctx en dis
+
+theorem no_empty_entry (re : Regex) (oracle : AsyncOracle) (ctx : List FileCtx) (en dis : List String) :
+    ∀ e ∈ runMerged re oracle ctx en dis, e.2 ≠ [] := full_runMerged re oracle ctx en dis
+
+/-- non-vacuity: two validators reporting on the same file and on different files -/
+example : held (runMerge [[(['a'], [⟨"keep-sorted", 1, 1, 1, 2, 1, []⟩])], [(['a'], [⟨"line-count", 1, 1, 1, 9, 2, []⟩]), (['b'], [⟨"line-count", 3, 1, 3, 9, 1, []⟩])]] []) ['a']
+    = [⟨"keep-sorted", 1, 1, 1, 2, 1, []⟩, ⟨"line-count", 1, 1, 1, 9, 2, []⟩] := by decide
 
 end Bw.Props.C11
